@@ -7,9 +7,10 @@ import Driver.Store
 import Driver.Transform
 import Driver.Bind
 import Driver.Schema
+import Driver.StreamBytes
 open Ipld.Driver
 
-def handlers : List (List String → Option String) := [cborHandler, asmHandler, linkHandler, jsonHandler, walkHandler, storeHandler, xformHandler, bindHandler, schemaHandler]
+def handlers : List (List String → Option String) := [cborHandler, asmHandler, linkHandler, jsonHandler, walkHandler, storeHandler, xformHandler, bindHandler, schemaHandler, streamHandler]
 
 def dispatch (line : String) : String :=
   let toks := (line.trimAscii.toString.splitOn " ").filter (· ≠ "")
